@@ -448,6 +448,7 @@ pub fn check(plans: &[Plan], recs: &[RunRec]) -> Outcome {
             ));
         }
         EndReason::InputBlocked => {} // reported by check_input_blocked
+        EndReason::ThreadLimit => s.inc("inconclusive.thread_limit"),
         EndReason::ExitOverdue => {} // reported by check_input_blocked
         EndReason::StepCap | EndReason::TickCap | EndReason::Deadlock => {
             // Only the input thread's own behaviour counts: if it burned the budget
